@@ -312,7 +312,7 @@ def run(c):
 
                 members = [m[k] for k in sorted(m, key=lambda k: int(k[1:]))]
                 spell = {r["src"] for r in members}
-                if len(spell) != 1:
+                if len(spell) != 1 and not members[0].get("arg_macro"):
                     c.obligation("harness-sanity:shared-spelling", False, "members of %s are not spelled identically: %r" % (fam, sorted(spell)))
                 if len({json.dumps(r["values"], sort_keys=True) for r in members}) > 1:
                     c.nontriv(("shared-spelling", fam, members[0]["src"]))
